@@ -113,7 +113,7 @@ Proof.
         split; auto. intro v. rewrite In_, Upd. unfold upd. split.
         -- intros (H1 & H2 & H3). repeat split; try lia; try exact H3; destruct (p =? v); cbv iota; lia.
         -- intros (H1 & H2 & H3). destruct (Z.eq_dec p v) as [->|N].
-           ++ exfalso. rewrite Z.eqb_refl in H3. lia.
+           ++ rewrite Z.eqb_refl in *. pose proof (occ_nonneg v tl). repeat split; try lia.
            ++ replace (p =? v) with false in *; [|symmetry; now apply Z.eqb_neq]. repeat split; try lia.
 Qed.
 
@@ -122,7 +122,7 @@ Lemma initial_todo_spec c f : arr_is c f -> forall k, Z.of_nat k <= zlen c ->
             (forall i, In i l <-> 0 <= i < Z.of_nat k /\ f i = 0).
 Proof.
   intros A. induction k as [|k IH]; intro Hk; simpl.
-  - exists []. repeat split; try constructor; try (intros []); lia.
+  - exists []. split; auto. split; [constructor|]. intro i. simpl. split; [intros [] | lia].
   - rewrite (A (Z.of_nat k)) by lia. simpl. destruct IH as (l & E & ND & In_); [lia|]. rewrite E. simpl.
     destruct (f (Z.of_nat k) =? 0) eqn:Z0.
     + apply Z.eqb_eq in Z0. exists (Z.of_nat k :: l). split; auto. split.
